@@ -34,12 +34,17 @@ def f2t(x):
     fr = Fraction(x) / Fraction(TICK)
     return int(fr) if fr.denominator == 1 else None
 
+# every `succeed()` in a recording environment is logged, in order (harness process only)
+_orig_succeed = simpy.Event.succeed
+def _rec_succeed(self, value=None):
+    r = _orig_succeed(self, value)
+    log = getattr(self.env, "fired_log", None)
+    if log is not None: log.append((self, self.env.now))
+    return r
+simpy.Event.succeed = _rec_succeed
+
 class RecEvent(simpy.Event):
-    """simpy.Event that logs the order in which events are succeeded."""
-    def succeed(self, value=None):
-        r = super().succeed(value)
-        self.env.fired_log.append((self, self.env.now))
-        return r
+    pass
 
 class RecEnv(simpy.Environment):
     event = BoundClass(RecEvent)
